@@ -9,6 +9,9 @@
 (* Options (record F):                                                     *)
 (*   ai ad                      AllowInvalidUTF8, AllowDuplicateNames      *)
 (*   ml                         Multiline (also implied by an indent)      *)
+(*   mlinit                     the defaults implied by Multiline apply:   *)
+(*                              true when Multiline was among the options  *)
+(*                              the coder was created with (see Effective) *)
 (*   indent prefix              byte sequences; indent = <<-1>> means unset*)
 (*   sac sacm                   SpaceAfterColon / Comma: -1 unset, 0, 1    *)
 (*   html js                    EscapeForHTML, EscapeForJS                 *)
@@ -17,14 +20,14 @@
 (***************************************************************************)
 EXTENDS Strings, Numbers
 
-DefaultFmt == [ai |-> FALSE, ad |-> FALSE, ml |-> FALSE, indent |-> <<-1>>, prefix |-> <<>>,
+DefaultFmt == [ai |-> FALSE, ad |-> FALSE, ml |-> FALSE, mlinit |-> FALSE, indent |-> <<-1>>, prefix |-> <<>>,
                sac |-> -1, sacm |-> -1, html |-> FALSE, js |-> FALSE, prs |-> FALSE,
                cri |-> FALSE, crf |-> FALSE, ror |-> FALSE]
 
 \* effective values: Multiline implies a space after colons, none after commas and a
 \* tab indent unless these were set explicitly
-EffIndent(F) == IF F.indent = <<-1>> THEN (IF F.ml THEN <<9>> ELSE <<>>) ELSE F.indent
-EffSac(F)  == IF F.sac = -1 THEN F.ml ELSE F.sac = 1
+EffIndent(F) == IF F.indent = <<-1>> THEN (IF F.mlinit THEN <<9>> ELSE <<>>) ELSE F.indent
+EffSac(F)  == IF F.sac = -1 THEN F.mlinit ELSE F.sac = 1
 EffSacm(F) == IF F.sacm = -1 THEN FALSE ELSE F.sacm = 1
 Esc(F) == [html |-> F.html, js |-> F.js]
 
@@ -53,10 +56,21 @@ SeqLess(a, b) == IF a = <<>> THEN b # <<>>
 
 \* ---------------------------------------------------------------- values
 \* S = [toks, src] token table and source bytes of one valid value
+\* S.proj maps the start offset of a number token to the projection's [neg, d, n] of the
+\* float64 nearest to the literal (shortest digits; saturated) where the specification does
+\* not decide the canonical spelling by itself (more than 15 significant digits)
+NumberText(F, S, tk) ==
+    LET lit == SubSeq(S.src, tk.s + 1, tk.e)
+        c == CanonNumber(lit, F.cri, F.crf) IN
+    IF c # <<63>> THEN c
+    ELSE IF tk.s \in DOMAIN S.proj
+         THEN LET p == S.proj[tk.s] IN IF p.d = <<>> THEN <<48>> ELSE EcmaLayout(p.neg, p.d, p.n)
+         ELSE c
+
 ScalarText(F, S, tk) ==
     LET lit == SubSeq(S.src, tk.s + 1, tk.e) IN
     IF tk.k \in {"str", "name"} THEN ReformatLit(lit, tk.str, F.prs, Esc(F))
-    ELSE IF tk.k = "num" THEN CanonNumber(lit, F.cri, F.crf)
+    ELSE IF tk.k = "num" THEN NumberText(F, S, tk)
     ELSE lit
 
 RECURSIVE FmtVal(_, _, _, _), FmtElems(_, _, _, _, _, _), FmtMembers(_, _, _, _, _)
@@ -66,7 +80,13 @@ FmtVal(F, S, i, d) ==
     IF tk.k = "[" THEN FmtElems(F, S, i + 1, d + 1, TRUE, <<91>>)
     ELSE IF tk.k = "{" THEN
          LET r == FmtMembers(F, S, i + 1, d + 1, <<>>)
-             ms == IF F.ror THEN SortSeq(r.ms, LAMBDA x, y : SeqLess(Utf16(x.name), Utf16(y.name))) ELSE r.ms
+             \* members are ordered by the UTF-16 code units of their names; equal names (possible
+             \* only when duplicates are allowed) by the UTF-16 code units of the member text
+             ms == IF F.ror
+                   THEN SortSeq(r.ms, LAMBDA x, y :
+                          \/ SeqLess(Utf16(x.name), Utf16(y.name))
+                          \/ x.name = y.name /\ SeqLess(Utf16(GoDecode(x.text).cps), Utf16(GoDecode(y.text).cps)))
+                   ELSE r.ms
              body == FoldLeft(LAMBDA acc, j : acc \o ElemLead(F, j = 1, d + 1) \o ms[j].text,
                               <<>>, [j \in 1..Len(ms) |-> j]) IN
          [out |-> <<123>> \o body \o CloseLead(F, ms = <<>>, d + 1) \o <<125>>, nx |-> r.nx]
@@ -89,9 +109,50 @@ FmtMembers(F, S, i, dIn, ms) ==
 
 \* the rendering of the value src (surrounding whitespace allowed) written inside d
 \* open containers; src must be exactly one valid value under (F.ai, F.ad)
-FormatAt(F, src, d, maxd) ==
+FormatAtP(F, src, d, maxd, proj) ==
     LET s == Finish(Run(Opt(F.ai, F.ad, maxd), src)) IN
-    FmtVal(F, [toks |-> s.toks, src |-> src], 1, d).out
+    FmtVal(F, [toks |-> s.toks, src |-> src, proj |-> proj], 1, d).out
+
+FormatAt(F, src, d, maxd) == FormatAtP(F, src, d, maxd, <<>>)
+
+(***************************************************************************)
+(* The Format family.  Each entry point joins the caller's options after   *)
+(* its preset (a caller option wins over the preset).                      *)
+(*   "format"  no preset                                                   *)
+(*   "compact" AllowDuplicateNames AllowInvalidUTF8 PreserveRawStrings     *)
+(*   "indent"  the same + Multiline                                        *)
+(*   "canon"   CanonicalizeRawInts CanonicalizeRawFloats ReorderRawObjects *)
+(* The caller's record says which options it sets: G.set is the set of     *)
+(* field names given explicitly.                                           *)
+(***************************************************************************)
+Preset(entry) ==
+    CASE entry = "compact" -> [DefaultFmt EXCEPT !.ad = TRUE, !.ai = TRUE, !.prs = TRUE]
+      [] entry = "indent" -> [DefaultFmt EXCEPT !.ad = TRUE, !.ai = TRUE, !.prs = TRUE, !.ml = TRUE, !.mlinit = TRUE]
+      [] entry = "canon" -> [DefaultFmt EXCEPT !.cri = TRUE, !.crf = TRUE, !.ror = TRUE]
+      [] OTHER -> DefaultFmt
+
+\* Compact/Indent/Canonicalize create the coder with their preset and join the caller's
+\* options afterwards; the defaults implied by Multiline (tab indent, space after colon) are
+\* set up when the coder is created, so they apply iff Multiline was in the preset - or, for
+\* Format/AppendFormat, among the caller's options.  (Canonicalize(Multiline(true)) therefore
+\* breaks lines without indenting; the listed properties do not speak about this.)
+Effective(entry, G) ==
+    LET P == Preset(entry)
+        ml == IF "ml" \in G.set THEN G.ml
+              ELSE IF {"indent", "prefix"} \cap G.set # {} THEN TRUE   \* an indent implies Multiline
+              ELSE P.ml IN
+    [k \in DOMAIN DefaultFmt |->
+        IF k = "ml" THEN ml
+        ELSE IF k = "mlinit" THEN (IF entry \in {"format", "append"} THEN ml ELSE P.ml)
+        ELSE IF k \in G.set THEN G[k]
+        ELSE P[k]]
+
+\* result of the operation: ok and the new contents (unchanged on error)
+FormatResult(entry, G, src, maxd, proj) ==
+    LET F == Effective(entry, G) IN
+    IF ValidOne(Opt(F.ai, F.ad, maxd), src)
+    THEN [ok |-> TRUE, out |-> FormatAtP(F, src, 0, maxd, proj)]
+    ELSE [ok |-> FALSE, out |-> src]
 
 \* every number of the value has a canonical spelling the specification decides by itself
 AllDecidable(F, src, maxd) ==
